@@ -90,6 +90,11 @@ func (p ReceiverEstimatedMaximumBitrate) MarshalTo(buf []byte) (n int, err error
 	buf[14] = 'M'
 	buf[15] = 'B'
 
+	// The number of ssrcs is carried in a single octet
+	if len(p.SSRCs) > math.MaxUint8 {
+		return 0, errTooManyReports
+	}
+
 	// Write the length of the ssrcs to follow at the end
 	buf[16] = byte(len(p.SSRCs))
 
